@@ -9,14 +9,14 @@ Lemma frag_dummy_done : forall t tr, dummy_done t tr = (t || tr).
 Proof. intros [] []; reflexivity. Qed.
 Lemma frag_dummy_timelimit : forall t tr, dummy_timelimit t tr = (tr && negb t).
 Proof. intros [] []; reflexivity. Qed.
-Lemma frag_dummy_guard : forall d, dummy_autoreset_guard d = d.
-Proof. intros []; reflexivity. Qed.
+Lemma frag_dummy_guard : forall d t tr, dummy_autoreset_guard d t tr = d.
+Proof. intros [] [] []; reflexivity. Qed.
 Lemma frag_worker_done : forall t tr, worker_done t tr = (t || tr).
 Proof. intros [] []; reflexivity. Qed.
 Lemma frag_worker_timelimit : forall t tr, worker_timelimit t tr = (tr && negb t).
 Proof. intros [] []; reflexivity. Qed.
-Lemma frag_worker_guard : forall d, worker_autoreset_guard d = d.
-Proof. intros []; reflexivity. Qed.
+Lemma frag_worker_guard : forall d t tr, worker_autoreset_guard d t tr = d.
+Proof. intros [] [] []; reflexivity. Qed.
 
 (* generic list facts *)
 Lemma nth_error_repeat_lt {X} (x : X) n i : i < n -> nth_error (repeat x n) i = Some x.
